@@ -5,6 +5,9 @@ canonical observation that coq/Lib/DeferredKShow.v prints for the model.
 program = {"canc": [canceller, ...],            one per Deferred: ["none"] | ["nothing"] | ["cb", z] | ["eb", e] | ["raise", e]
            "ops":  [op, ...]}
 op      = ["add", d, cb, eb] | ["cb", d, z] | ["eb", d, e] | ["pause", d] | ["unpause", d] | ["cancel", d]
+          ["eb", d, e, form]: how the failure is handed to errback (same meaning, model ignores it):
+          "exc" (default) errback(E()) | "failure" errback(Failure(E())) | "bare" argument-less errback() inside the
+          except block of a raised E | "none" errback(None) inside such a block
 cb, eb  = None | beh | ["script", [sop, ...], beh]      a script runs kernel operations INSIDE the callback, then behaves as beh
 beh     = ["ret", value] | ["raise", e] | ["pass"]
 sop     = ["add", d, beh|None, beh|None] | ["cb", d, z] | ["eb", d, e] | ["pause", d] | ["unpause", d] | ["cancel", d]
@@ -103,6 +106,64 @@ def rand_cls(rng, nd, p=0.5):
     if mode < 0.35:
         return [1] * nd
     return [1 if rng.random() < p else 0 for _ in range(nd)]
+
+
+EB_FORMS = ["exc", "failure", "bare", "none"]
+
+
+def do_errback(d, e, form="exc"):
+    """d.errback(...) with exception class e, in one of the call forms the API offers"""
+    from twisted.python.failure import Failure
+
+    if form == "exc":
+        d.errback(exc_class(e)())
+    elif form == "failure":
+        d.errback(Failure(exc_class(e)()))
+    else:
+        try:
+            raise exc_class(e)()
+        except BaseException:
+            if form == "bare":
+                d.errback()
+            else:
+                d.errback(None)
+
+
+def eb_form(o):
+    return o[3] if len(o) > 3 else "exc"
+
+
+def vary_errbacks(case, rng):
+    """the same program with every errback operation (top level and in scripts) in a random call form"""
+    def sop(x):
+        return [x[0], x[1], x[2], rng.choice(EB_FORMS)] if x[0] == "eb" else x
+
+    def beh(b):
+        if b is not None and b[0] == "script":
+            return ["script", [sop(x) for x in b[1]], b[2]]
+        return b
+
+    ops = []
+    for o in case["ops"]:
+        if o[0] == "eb":
+            ops.append([o[0], o[1], o[2], rng.choice(EB_FORMS[1:])])
+        elif o[0] == "add":
+            ops.append(["add", o[1], beh(o[2]), beh(o[3])])
+        else:
+            ops.append(o)
+    return {**case, "ops": ops}
+
+
+def has_errback(case) -> bool:
+    def in_beh(b):
+        return b is not None and b[0] == "script" and any(x[0] == "eb" for x in b[1])
+    return any(o[0] == "eb" or (o[0] == "add" and (in_beh(o[2]) or in_beh(o[3]))) for o in case["ops"])
+
+
+def with_errback_forms(cases, rng, fraction):
+    """a sample of the cases that contain an errback once more with other call forms (bare errback() inside an except
+    block, errback(None), errback(Failure))"""
+    return [vary_errbacks(c, rng) for c in cases if has_errback(c) and rng.random() < fraction]
 
 
 class Runner:
@@ -211,7 +272,7 @@ class Runner:
         elif kind == "cb":
             self._fire_wrap(lambda: d.callback(o[2]))
         elif kind == "eb":
-            self._fire_wrap(lambda: d.errback(exc_class(o[2])()))
+            self._fire_wrap(lambda: do_errback(d, o[2], eb_form(o)))
         elif kind == "pause":
             d.pause()
         elif kind == "unpause":
@@ -231,7 +292,7 @@ class Runner:
                 if kind == "cb":
                     d.callback(o[2])
                 else:
-                    d.errback(exc_class(o[2])())
+                    do_errback(d, o[2], eb_form(o))
             except defer.AlreadyCalledError:
                 tail = "A"
             else:
@@ -297,7 +358,7 @@ class Runner:
         elif kind == "cb":
             d.callback(o[2])
         elif kind == "eb":
-            d.errback(exc_class(o[2])())
+            do_errback(d, o[2], eb_form(o))
         elif kind == "pause":
             d.pause()
         elif kind == "unpause":
@@ -503,7 +564,7 @@ def rand_sop(rng, nd, fwd_only=True):
     if r < 0.65:
         return ["cb", d, rng.randrange(10)]
     if r < 0.72:
-        return ["eb", d, rng.randrange(3)]
+        return ["eb", d, rng.randrange(3), rng.choice(EB_FORMS)]
     if r < 0.80:
         return ["pause", d]
     if r < 0.90:
@@ -549,7 +610,7 @@ def rand_script_program(rng, nd, nops, cancellers=True, p_script=0.4, pauses=Tru
         elif r < 0.72:
             ops.append(["cb", d, rng.randrange(10)])
         elif r < 0.8:
-            ops.append(["eb", d, rng.randrange(3)])
+            ops.append(["eb", d, rng.randrange(3), rng.choice(EB_FORMS)])
         elif r < 0.86 and pauses:
             ops.append(["pause", d])
         elif r < 0.93 and pauses:
@@ -587,7 +648,7 @@ def rand_program(rng, nd, nops, weights=None, cancellers=True):
         elif k == "cb":
             ops.append(["cb", d, rng.randrange(10)])
         elif k == "eb":
-            ops.append(["eb", d, rng.randrange(3)])
+            ops.append(["eb", d, rng.randrange(3), rng.choice(EB_FORMS)])
         else:
             ops.append([k, d])
     return {"canc": canc, "ops": ops}
